@@ -60,6 +60,8 @@ def step (s : St) (line : String) : St × String :=
   | "g" :: p :: b :: ids =>
     match s.cur, p.toNat?, b.toNat?, (natList ids).bind splitLast with
     | some m, some p, some b, some (c, w) =>
+      -- inf / nan are outside the model (values are exact rationals): refuse instead of guessing
+      if p / 2^23 % 256 = 255 ∨ b / 2^23 % 256 = 255 then (s, "bad-op non-finite") else
       ({ s with cur := some { m with entries :=
           { ctx := c, word := w, prob := f32ToRat p, bo := f32ToRat b } :: m.entries } }, "ok")
     | _, _, _, _ => (s, "bad-op")
@@ -100,6 +102,17 @@ def step (s : St) (line : String) : St × String :=
       let tool := Float.log10 (outScore s.out c w)
       fbits spec ++ " " ++ fbits tool)
     (s, " ".intercalate ([fbits lzd, fbits (Float.log10 zi)] ++ vals))
+  | "bse" :: rest =>
+    let bs := rest.takeWhile (· ≠ "|")
+    let vs := (rest.dropWhile (· ≠ "|")).drop 1
+    match natList bs, natList vs with
+    | some bs, some vs =>
+      if bs.length ≠ vs.length then (s, "bad-op") else
+      let n := BSE.byteLength bs
+      let m := BSE.encode bs vs
+      let hex := if n = 0 then "-" else bytesToHex (natToLe m n)
+      (s, " ".intercalate ([toString n, hex] ++ (BSE.decode bs m).map toString))
+    | _, _ => (s, "bad-op")
   | _ => (s, "bad-op")
 
 def main : IO Unit := runDriver ({} : St) step
